@@ -9,16 +9,19 @@ NOTE_SAN = ("Trusted base: g++ 12 / clang 14 sanitizer runtimes, libstdc++ refer
 
 CHECKS = {
     "C01": ("exploration", "5 C01", "differential runtime monitoring: random operation histories vs std::vector model under ASan/UBSan",
-            "Every public call of generated operation histories (24 configurations quick, 56 thorough: flavour x N x element category x size_type x allocator x "
-            "iterator category) is compared step by step with std::vector; exploration is the right level because the property quantifies over unbounded histories."),
+            "Every public call of generated operation histories (31 configurations quick, 63 thorough: flavour x N x element category incl. raw int/double and "
+            "throwing-move elements x size_type x allocator x iterator category x C++17/20) is compared step by step with std::vector; exploration is the right level "
+            "because the property quantifies over unbounded histories."),
     "C02": ("exploration", "5 C02", "runtime monitoring: element identity/lifetime ledger + ASan/UBSan/LSan over generated histories",
-            "Instrumented element types record every constructor/assignment/destructor; the ledger is checked after every call and at the end of every history."),
+            "Instrumented element types record every constructor/assignment/destructor; the ledger is checked after every call and at the end of every history, in the "
+            "vector, FlatSet and SmallSet engines and in the nested-containers engine (containers as elements of containers)."),
     "C05": ("exploration", "5 C05", "runtime monitoring: entitlement shadow + allocator ledger + malloc hook over generated histories",
             "The inline-storage promise is monitored on every call of histories steered around N."),
     "C06": ("exploration", "5 C06", "runtime monitoring: allocator ledger (pointer->count, family) + LeakSanitizer over generated histories",
-            "Every allocate/deallocate/reallocate of instrumented allocators is checked online; outstanding blocks at the end of each history."),
+            "Every allocate/deallocate/reallocate of instrumented allocators is checked online; outstanding blocks at the end of each history; direct grid driver of "
+            "BasicAllocatorWrapper::reallocate."),
     "C07": ("exploration", "5 C07", "runtime monitoring: capacity/address shadow + per-object event stamps over generated histories",
-            "capacity(), data(), element addresses and identities are compared before/after every call."),
+            "capacity(), data(), element addresses and identities are compared before/after every call; buffer hand-over also judged for swap2 in the state-pair grid."),
     "C03": ("exploration", "5 C03", "differential runtime monitoring: random FlatSet histories vs std::set model, comparator provenance, under ASan/UBSan",
             "Every call of generated histories over pools of FlatSets (comparators less/greater/coarse/stateful/transparent x underlying amc::vector/"
             "SmallVector/FixedCapacityVector/std::vector x element category) is compared with std::set built with the same comparator object."),
@@ -38,7 +41,8 @@ CHECKS = {
             "Every fill near the limit x every growing operation x positions x counts (incl. size_type extremes) for small N and 8-bit size types; the expected "
             "verdict is computed independently in uintmax_t; exhaustive inside that grid."),
     "C09": ("fault_enumeration", "5 C09", "fault injection: every index of the throwing-capable events (element construction/copy/assignment, allocator calls) of every scenario, judged by ledgers and snapshots",
-            "Each scenario is first run fault-free to count its fault points, then re-run once per fault index; vectors (27 operation forms) and sets (13 forms)."),
+            "Each scenario is first run fault-free to count its fault points, then re-run once per fault index; vectors (27 operation forms) and sets (13 forms); plus real "
+            "malloc/realloc failures of amc::allocator for impossible capacities."),
     "C10": ("exploration", "5 C10", "differential runtime monitoring: complete small-scope grid of aliased calls vs std::vector fed with a pre-copied value, plus aliased calls in random histories",
             "size x position x source index x count x spare-capacity mode x 9 call forms per configuration; exhaustive in that scope."),
     "C13": ("exploration", "5 C13", "runtime monitoring: state-pair grid of swap2 over configuration pairs with model/ledger/canary oracles, plus swap2-heavy random histories, under ASan/UBSan",
@@ -48,7 +52,7 @@ CHECKS = {
             "The algorithm results are compared with the standard's wording and the element ledger proves clean-up after each injected constructor fault."),
     "C14": ("exploration", "5 C14", "runtime monitoring: containers relocated by memcpy at random quiescent points of monitored histories (differential re-run without relocation) + trait table vs conjunction of parts",
             "The byte-copied container continues the history under the model, ledger and sanitizer monitors; the abandoned block is poisoned and freed so that a stale "
-            "self pointer is a use-after-free."),
+            "self pointer is a use-after-free. A nested-containers engine lets outer amc vectors relocate inner amc containers according to their own declaration."),
     "C16": ("exploration", "5 C16", "differential runtime monitoring: byte comparison of transcripts of one generated script program across a build matrix, all under UBSan; feature probes",
             "{c++11,14,17,20} x {extras,pedantic} x {assert,NDEBUG} x {-O0,-O2}: 8 pairwise-covering builds quick, all 32 thorough."),
     "C17": ("other", "5 C17", "observed-value monitor: generated probe programs print compile-time constants, judged by an independent oracle written from the statement",
